@@ -126,3 +126,62 @@ def methods_named(relpath, names):
                 if isinstance(f, ast.FunctionDef) and f.name in names:
                     out.append((n.name + "." + f.name, f))
     return out
+
+
+_HIDDEN_CACHE = {}
+
+
+def hidden_rng_helpers():
+    """names of third-party helpers that own a generator of their own: functions of the installed pymoo package decorated with
+    @default_random_state (called without random_state= they draw from numpy.random.default_rng(None), i.e. operating-system entropy)"""
+    if "names" in _HIDDEN_CACHE:
+        return _HIDDEN_CACHE["names"]
+    names = set()
+    try:
+        import importlib.util
+        import os
+        spec = importlib.util.find_spec("pymoo")
+        root = os.path.dirname(spec.origin) if spec and spec.origin else None
+        for dp, _, fs in os.walk(root or ""):
+            for f in fs:
+                if not f.endswith(".py"):
+                    continue
+                try:
+                    tree = ast.parse(open(os.path.join(dp, f), encoding="utf-8", errors="replace").read())
+                except SyntaxError:
+                    continue
+                for n in ast.walk(tree):
+                    if isinstance(n, (ast.FunctionDef, ast.AsyncFunctionDef)):
+                        for d in n.decorator_list:
+                            dn = d.func if isinstance(d, ast.Call) else d
+                            nm = dn.id if isinstance(dn, ast.Name) else dn.attr if isinstance(dn, ast.Attribute) else ""
+                            if nm == "default_random_state":
+                                names.add(n.name)
+    except Exception:
+        pass
+    _HIDDEN_CACHE["names"] = names
+    return names
+
+
+def hidden_rng_calls(fn_node, module_tree=None):
+    """call sites that draw from a generator the caller cannot seed: a helper of `hidden_rng_helpers()` that the module imports
+    by name from the third-party package and calls without a `random_state=` argument, or default_rng() / RandomState() /
+    SeedSequence() constructed without a seed"""
+    helpers = hidden_rng_helpers()
+    imported = set()
+    if module_tree is not None:
+        for n in ast.walk(module_tree):
+            if isinstance(n, ast.ImportFrom) and (n.module or "").split(".")[0] == "pymoo":
+                imported.update((a.asname or a.name) for a in n.names if a.name in helpers)
+    out = []
+    for n in ast.walk(fn_node):
+        if not isinstance(n, ast.Call):
+            continue
+        f = n.func
+        kws = {k.arg for k in n.keywords}
+        if isinstance(f, ast.Name) and f.id in imported and "random_state" not in kws and not any(k.arg is None for k in n.keywords):
+            out.append((n.lineno, "%s(...) without random_state=: draws from an operating-system seeded generator" % f.id))
+        nm = f.id if isinstance(f, ast.Name) else f.attr if isinstance(f, ast.Attribute) else None
+        if nm in ("default_rng", "RandomState", "SeedSequence") and not n.args and not (kws - {"random_state"}):
+            out.append((n.lineno, "%s() without a seed" % nm))
+    return out
